@@ -171,7 +171,7 @@ theorem render_retokenizes_tokens (toks : List Tok) (comments : Array Bytes) (ou
     ∃ (ps : List Piece), out = piecesBytes ps ∧ (∀ p ∈ ps, p.ok) ∧ ps.flatMap Piece.src = toks ∧
       tokenize out = some (piecesOut 1 ps, piecesC #[] 1 ps) ∧
       toks.length = (piecesOut 1 ps).length ∧ ∀ p ∈ toks.zip (piecesOut 1 ps), tokEquiv p.1 p.2 := by
-  obtain ⟨ps, hout, hok, hsrc, _⟩ := render_pieces toks comments out hwf hcm hlines hr
+  obtain ⟨ps, hout, hok, hsrc, _, _⟩ := render_pieces toks comments out hwf hcm hlines hr
   have hlen : ps.length < maxLine := by
     have := pieces_length_le_newlines ps
     rw [← hout] at this
@@ -235,7 +235,7 @@ theorem render_retokenizes_items (toks : List Tok) (comments : Array Bytes) (out
     ∃ toks' comments', tokenize out = some (toks', comments') ∧
       toks.length = toks'.length ∧ (∀ p ∈ toks.zip toks', tokEquiv p.1 p.2) ∧
       Forall2 itemEquiv (items toks comments) (items toks' comments') := by
-  obtain ⟨ps, hout, hok, hsrc, hitems⟩ := render_pieces toks comments out hwf hcm hlines hr
+  obtain ⟨ps, hout, hok, hsrc, hitems, _⟩ := render_pieces toks comments out hwf hcm hlines hr
   have hlen : ps.length < maxLine := by
     have := pieces_length_le_newlines ps
     rw [← hout] at this
